@@ -20,9 +20,14 @@ LEVEL = 'proof'
 DRIVER = 'drv_c03'
 HARNESS = 'c03.cpp'
 SOURCES = ['src/geodesy/LambertConverter.cpp', 'src/geodesy/EarthEllipsoid.cpp']
-PROOF_MODULES = ['RomeaProofs.Properties.C03']
+PROOF_MODULES = ['RomeaProofs.Properties.C03', 'RomeaProofs.Bridge.C03', 'RomeaProofs.Bridge.C03Cor']
 HANG_SECS = 2          # the latitude loop needs microseconds wherever it terminates at all
-TRUSTED = ['libm functions are interpreted as the mathematical functions (theorems over RN / R: no rounding, no overflow)',
+TRUSTED = ['tools/cxx2lean.py (Python over clang-14\'s JSON AST) translates EarthEllipsoid(double,double) and LambertConverter::'
+           'computeIsometricLatitude / computeLatitude (its for(;;)…break loop, EPSILON) / computeGrandeNormal / both '
+           'computeProjectionParameters / toLambert / toWGS84 from the working tree into RomeaModel/Generated/SrcC03.lean on every run; '
+           'RomeaProofs/Bridge/C03*.lean prove them equal to the hand-written model for every scalar type (conventions: std::pow(x, 2) = x*x, '
+           'M_PI_2 = M_PI/2, libm -> Trans.*); the delegating constructors are not translated',
+           'libm functions are interpreted as the mathematical functions (theorems over RN / R: no rounding, no overflow)',
            'the probe evaluates the geometric definitions (meridian radius M, transverse radius N cos(phi)) in Python binary64 '
            'and differentiates the implementation numerically (Richardson central differences)']
 ASSUMPTIONS = ['the theorems (incl. termination of the latitude loop within 8 passes and its 1e-13 rad accuracy for e <= 0.1) hold in '
@@ -489,3 +494,26 @@ def focused_cases(rng, disagreeing, tier):
             lines += ['lam.rt %s %s' % (D(lat), D(lon)), 'lam.jac %s %s %s' % (D(lat), D(lon), D(FD_H))]
         cases.append({'name': 'focused:' + c.get('name', ''), 'lines': lines, 'meta': {}})
     return cases
+
+
+# ------------------------------------------------------------------ stage G: the anchored functions themselves, translated (DESIGN.md 2.5b)
+BRIDGE_SPEC = {
+    'id': 'C03',
+    'extra_filters': ['EPSILON'],      # anonymous-namespace constant (outside the `romea` filter): dumped by a parallel clang pass
+    'sources': ['src/geodesy/LambertConverter.cpp', 'src/geodesy/EarthEllipsoid.cpp'],
+    'functions': [
+        {'cxx': 'EarthEllipsoid::EarthEllipsoid', 'sig': '(double, double)'},
+        {'cxx': 'LambertConverter::computeIsometricLatitude'},
+        {'cxx': 'LambertConverter::computeLatitude'},
+        {'cxx': 'LambertConverter::computeGrandeNormal'},
+        {'cxx': 'LambertConverter::computeProjectionParameters', 'sig': 'SecantProjectionParameters', 'suffix': '_secant'},
+        {'cxx': 'LambertConverter::computeProjectionParameters', 'sig': 'TangentProjectionParameters', 'suffix': '_tangent'},
+        {'cxx': 'LambertConverter::toLambert'},
+        {'cxx': 'LambertConverter::toWGS84'},
+    ],
+}
+
+
+def regen(ctx):
+    import bridge
+    return bridge.regen_bridge(ctx, BRIDGE_SPEC)
